@@ -47,9 +47,29 @@ ERRORS = {
     "undefined-macro-inside-for": ".for k := 0, 2 {\nno_such_macro(k)\n}",
     "undefined-macro-inside-macro-body": ".macro outer_m() {\nno_such_macro(1)\n}\nouter_m()",
     "undefined-symbol-inside-block": "{\nlda.w missing_symbol\n}",
+    "unterminated-comment-slash-star-slash": "/*/ nop",
+    "unterminated-comment": "/* never closed",
+    "lexical-error-inside-an-included-file": ".include '{INC:lda $12}'",
+    "syntax-error-inside-an-included-file": ".include '{INC:lda (0x10}'",
+    "syntax-error-inside-a-nested-include": ".include '{INC:.include \x27{INC2:) nop}\x27}'",
     "stray-closing-brace": "}\nnop",
     "stray-closing-brace-after-block": "{\nnop\n}\n}\nnop",
 }
+
+
+def materialise_includes(err, wd):
+    """`{INC:text}` / `{INC2:text}` in an error statement stand for the name of a file (created in the working directory) that holds `text`"""
+    import re
+    for tag in ("INC2", "INC"):
+        while True:
+            m = re.search(r"\{%s:([^{}]*)\}" % tag, err)
+            if not m:
+                break
+            name = f"{tag.lower()}_{abs(hash(m.group(1))) % 100000}.s"
+            with open(os.path.join(wd, name), "w") as f:
+                f.write("nop\n" + m.group(1) + "\nnop\n")
+            err = err[:m.start()] + name + err[m.end():]
+    return err
 
 
 def inject(valid, err, pos):
@@ -118,7 +138,7 @@ def run_entry(entry, src, workdir):
 def check(case):
     wd = tempfile.mkdtemp(prefix="vfC14")
     try:
-        src = VALID[case["valid"]] if case["error"] is None else inject(VALID[case["valid"]], ERRORS[case["error"]], case["pos"])
+        src = VALID[case["valid"]] if case["error"] is None else inject(VALID[case["valid"]], materialise_includes(ERRORS[case["error"]], wd), case["pos"])
         cwd = os.getcwd()
         os.chdir(wd)
         try:
